@@ -1107,15 +1107,7 @@ class _Continue(Exception):
 
 
 def _disj(vals):
-    ps = []
-    for v in vals:
-        if isinstance(v, (bool, np.bool_)):
-            if v: return True
-            continue
-        ps.append(as_pred(v))
-    if not ps: return False
-    if len(ps) == 1: return ps[0]
-    return Pred('or', tuple(sorted(set(ps), key=repr)))
+    return Pred.disj(list(vals))
 
 
 def _as_load(t):
